@@ -25,6 +25,7 @@ import (
 	"github.com/olric-data/olric/internal/protocol"
 	"github.com/olric-data/olric/internal/resp"
 	"github.com/olric-data/olric/internal/util"
+	"github.com/olric-data/olric/internal/verifhook"
 	"github.com/olric-data/olric/pkg/storage"
 	"github.com/redis/go-redis/v9"
 )
@@ -83,6 +84,7 @@ func (dm *DMap) atomicIncrDecr(cmd string, e *env, delta int) (int, error) {
 	if err != nil {
 		return 0, err
 	}
+	verifhook.At("atomic.read", dm.name, e.key)
 
 	var updated int
 	switch cmd {
@@ -170,6 +172,7 @@ func (dm *DMap) getPut(e *env) (storage.Entry, error) {
 	if err != nil {
 		return nil, err
 	}
+	verifhook.At("atomic.read", dm.name, e.key)
 	err = dm.put(e)
 	if err != nil {
 		return nil, err
@@ -247,6 +250,7 @@ func (dm *DMap) atomicIncrByFloat(e *env, delta float64) (float64, error) {
 			return 0, err
 		}
 	}
+	verifhook.At("atomic.read", dm.name, e.key)
 
 	latest := current + delta
 	if err != nil {
